@@ -13,6 +13,7 @@ def clipVal (v : Val) (lo hi : Rat) : Val :=
   | .int i => .int (clipInt i (truncRat lo) (truncRat hi))
   | .rat q => .rat (clipRat q lo hi)
   | .str s => .str s
+  | .nzero => if lo ≤ 0 ∧ 0 ≤ hi then .nzero else .rat (clipRat 0 lo hi)
 
 /-- float bounds `lower`, `upper` used by `_non_default_config` (first / last category for
 nearest-neighbour ordinals; a non-numeric category is the `float()` error) -/
@@ -70,6 +71,7 @@ def Dom.defaultValue (d : Dom) (given : Val) : Except Err Val :=
     | .float lo hi _ _ =>
       match v with
       | .rat q => if lo ≤ q ∧ q ≤ hi then .ok v else .error (.assertion "not in [lower, upper]")
+      | .nzero => if lo ≤ 0 ∧ 0 ≤ hi then .ok v else .error (.assertion "not in [lower, upper]")
       | _ => .error (.assertion "not in [lower, upper]")
     | .fin _ lo hi _ _ _ =>
       match v.num? with
